@@ -5,7 +5,7 @@
    `step : state -> op -> state * result out`, `run`, `view` (object -> abstract database), `handle_db`. *)
 From Coq Require Import QArith.
 From E3FP Require Import Base.Prelude Base.ZSet Model.Fprint Model.Db
-  Proofs.DbBase Proofs.DbRefuse Proofs.DbInv Proofs.DbFrame Proofs.DbSpec Proofs.DbFold.
+  Proofs.DbBase Proofs.DbRefuse Proofs.DbInv Proofs.DbFrame Proofs.DbSpec Proofs.DbFold Proofs.DbRows.
 Open Scope Z_scope.
 
 (* ---------------------------------------------------------------- invariant over ANY operation list *)
@@ -30,6 +30,18 @@ Theorem props_aligned : forall ops, ops_dom init ops -> forall h d, handle_db (r
   length (dnames d) = fp_num d /\ forall k v, aget k (dprops d) = Some v -> length v = fp_num d.
 Proof. exact props_aligned. Qed.
 Print Assumptions props_aligned.
+
+(* rows_wf: over any history whose inputs are well formed (`op_wf`: added fingerprints have strictly increasing indices in
+   [0, bits) - what every constructor of fprint.py produces -, from_array is given canonical rows), every stored row of every
+   database has strictly increasing columns in [0, bits).  (Unsorted from_array input is outside this theorem; the
+   correspondence covers it.) *)
+Theorem rows_wf : forall ops, ops_dom init ops -> Forall op_wf ops -> forall h d, handle_db (run init ops) h = Some d ->
+  match dbits d with
+  | Some b => Forall (fun r => ssorted (map fst r) /\ forall j, In j (map fst r) -> 0 <= j < b) (drows d)
+  | None => drows d = []
+  end.
+Proof. exact rows_wf_any_history. Qed.
+Print Assumptions rows_wf.
 
 (* ---------------------------------------------------------------- refinement, per operation *)
 (* rows and names are appended in batch order, every fingerprint cast to the database's type (fp_row) *)
@@ -150,6 +162,15 @@ Definition ex_hist : list op :=
    OpCopy 0; OpFold 0 8 None; OpAdd 1 [ex_fp (Some "b"%string) 4 40]].
 Example ex_hist_dom : ops_dom init ex_hist.
 Proof. unfold ex_hist. cbn [ops_dom op_dom]. repeat split. Qed.
+Example ex_hist_wf : Forall op_wf ex_hist.
+Proof.
+  unfold ex_hist.
+  repeat match goal with |- Forall _ (_ :: _) => apply Forall_cons | |- Forall _ [] => apply Forall_nil end; try exact I; unfold op_wf;
+  repeat match goal with |- Forall _ (_ :: _) => apply Forall_cons | |- Forall _ [] => apply Forall_nil end;
+  unfold fp_wf, ex_fp, ssorted; cbn [fi_fp fidx fbits];
+  (split; [repeat match goal with |- Sorted.StronglySorted _ _ => constructor | |- Forall _ _ => constructor end; lia
+          | intros i Hi; simpl in Hi; intuition lia]).
+Qed.
 Example ex_hist_facts :
   let s := run init ex_hist in
   option_map fp_num (handle_db s 0) = Some 3%nat /\ option_map fp_num (handle_db s 1) = Some 4%nat
